@@ -177,7 +177,12 @@ def check_key_provenance(ctx, facts):
             ko = _key_origins(facts, b, s.node["args"][1])
             path_like = any(k[0] == "field" and k[2] in ("file_path", "root", "path") for k in ko) or any(k[0] == "call" and re.search(r"create_new_file$|read_dir|PathBuf|get_file_path_for_block$", k[1]) for k in ko)
             counter_like = any(k[0] == "field" and k[2] == "id" for k in ko) or any(k[0] in ("const", "arg") for k in ko) or any(k[0] == "local" for k in ko)
-            if path_like and not counter_like:
+            lossy = [k[1] for k in ko if k[0] == "call" and re.search(r"::(file_name|file_stem|extension|strip_prefix|strip_suffix|rsplit\w*|split\w*|trim\w*|components|parent)$", strip_generics(k[1]))]
+            if path_like and not counter_like and lossy:
+                ctx.violate("C13.2", static, "global-map-key-loses-the-root", b.relfile, s.line,
+                            "%s is keyed by a value computed from the file path by %s, not by the path itself: files of the same name in different instance directories share one entry"
+                            % (static, lossy[0].split("::", 1)[-1]))
+            elif path_like and not counter_like:
                 good += 1
                 ctx.ok("C13.2", common.short_fn(b.name), "%s key derives from a WAL file path" % static, b.relfile, s.line)
             else:
@@ -189,6 +194,26 @@ def check_key_provenance(ctx, facts):
                         "instance in the process registers, marks and unlocks blocks under keys that already belong to the first instance's files (register_block keeps the first "
                         "registrant): reclamation decisions of one instance act on the other's files. %d accessor sites affected"
                         % (static, sorted(k for k in ko)[:4], len(bad)))
+    # the process-global mapping cache (MMAP_KEEPER): keyed by the whole file path
+    n_k = 0
+    for name, b in sorted(facts.bodies.items()):
+        sn = common.short_fn(name)
+        if b.j["derived"] or not sn.startswith("storage::SharedMmapKeeper::"):
+            continue
+        for s in b.calls(re.compile(r"HashMap.*::(get|get_mut|entry|insert|remove|contains_key)$")):
+            ctx.saw_body(b)
+            n_k += 1
+            ko = _key_origins(facts, b, s.node["args"][1])
+            path_like = any(k[0] == "field" and k[2] in ("file_path", "root", "path") for k in ko) or any(k[0] == "call" and re.search(r"create_new_file$|read_dir|PathBuf|get_file_path_for_block$|::path$|to_string_lossy$|DirEntry", k[1]) for k in ko)
+            other_calls = sorted(k[1] for k in ko if k[0] == "call" and not re.search(r"create_new_file$|read_dir|PathBuf|get_file_path_for_block$|::path$|to_string_lossy$|DirEntry|format$|fmt::", k[1]))
+            lossy = [c for c in other_calls if re.search(r"::(file_name|file_stem|extension|strip_prefix|strip_suffix|rsplit\w*|split\w*|trim\w*|components|parent)$", strip_generics(c))]
+            if lossy or (other_calls and not path_like):
+                ctx.violate("C13.2", "SharedMmapKeeper::MMAP_KEEPER", "global-map-key-loses-the-root", b.relfile, s.line,
+                            "the process-global cache of file mappings is keyed by a value computed from the path by %s, not by the path itself: two instances whose WAL files have the "
+                            "same name in different directories get each other's mapping (reads and writes of one instance land in the other's file)" % (lossy or other_calls)[0].split("::", 1)[-1])
+            else:
+                ctx.ok("C13.2", sn, "mapping cache keyed by the whole file path", b.relfile, s.line, str(sorted(ko))[:120])
+    ctx.floor("C13.2", "accesses of the mapping cache", n_k, 3)
     ctx.floor("C13.2", "accesses of process-global maps", n, 8)
 
 
